@@ -4,7 +4,7 @@
 # Confirms: applies to /repo HEAD, builds (with and without -tags verif), existing tests pass,
 # demo passes on the unchanged tree and fails with the change.
 export GOFLAGS=-mod=mod GOPROXY=off GOSUMDB=off GOTOOLCHAIN=local
-P=$1; I=$2; PFX=${3:-mut}; TAGI=$I; [ "$PFX" = "mut2" ] && TAGI=b$I; [ "$PFX" = "mut3" ] && TAGI=c$I; [ "$PFX" = "mut4" ] && TAGI=d$I; [ "$PFX" = "mut5" ] && TAGI=e$I
+P=$1; I=$2; PFX=${3:-mut}; TAGI=$I; [ "$PFX" = "mut2" ] && TAGI=b$I; [ "$PFX" = "mut3" ] && TAGI=c$I; [ "$PFX" = "mut4" ] && TAGI=d$I; [ "$PFX" = "mut5" ] && TAGI=e$I; [ "$PFX" = "mut6" ] && TAGI=f$I
 patch=/tmp/$PFX-$P-$I.patch; meta=/tmp/$PFX-$P-$I.json
 demo=/tmp/$PFX-$P-${I}_demo_test.go
 S=/var/tmp/bipverif-seed-$$; rm -rf $S; mkdir -p $S; rsync -a --exclude .git /repo/ $S/
